@@ -510,6 +510,14 @@ def inb_configs(tier):
                 ("ord", dict(ids="Ids12", n=n, kinds="KAll" if srv else "KPub01", outs="OOk", imm=T, gp=T if srv else F)),
                 ("ids", dict(ids="Ids1", n=n + 1, kinds="KIds" if srv else "KPub1", outs="ONack", imm=F, gp=F)),
             ]
+            # three QoS 1 publishes with distinct identifiers and every arrival / completion order, small enough for every
+            # behaviour to be replayed in quick (the inline slot of the io dispatcher free while its queue is not empty,
+            # responses of younger requests parked behind an older one, ...)
+            base.append(("q1x3", dict(ids="Ids123", n=3, kinds="KPub1", outs="OOk", imm=F, gp=F), 6000))
+            if not srv:
+                # PUBREL towards a client for an identifier that is not in flight (answered by the library itself) between
+                # publishes whose handlers are pending: the answer keeps its place in the order
+                base.append(("rel", dict(ids="Ids12", n=3, kinds="KPub1Rel", outs="OOk", imm=F, gp=F), 3000))
             # streamed payloads: a PUBLISH of 12 bytes of which 4 come with the header, pieces of 4 / 8 bytes, the last
             # piece alone or in one write with the next PUBLISH; handlers that read the payload to its end or abandon it
             base.append(("strm", dict(ids="Ids12", n=n + 2, kinds="KStrm", chunks="C48", outs="OOk", imm=F, gp=F, strict=3)))
@@ -519,10 +527,11 @@ def inb_configs(tier):
             if not srv:
                 # QoS 2 towards a client: known finding (acknowledged with PUBACK), kept small
                 base.append(("q2", dict(ids="Ids1", n=2, kinds="KPub2", outs="OOk", imm=T, gp=F)))
-            for name, p in base:
+            for item in base:
+                name, p = item[0], item[1]
                 p = dict(INB_DEFAULTS, **dict(p, ver=ver, role=role))
                 cs.append((f"v{ver}{role[0]}_{name}", INB_CFG.format(**p), "MC_Endpoint", inb_decode_for(p),
-                           [None, "code16", "rpi0"] if ver == 5 and srv and name in ("pub", "ids") else [None]))
+                           [None, "code16", "rpi0"] if ver == 5 and srv and name in ("pub", "ids") else [None]) + tuple(item[2:]))
     return cs
 
 
@@ -1169,6 +1178,12 @@ def c07_scenarios(role, ver):
     #    publish reaches a `Publish` handler through the topic router, which has no connection-control service)
     s.append((dict({"task_reader": 1}, **({"router": 1} if role == "client" else {})),
               [pub(q=1, id=3, plen=12, send=4), {"c": "complete", "j": 0, "o": "ok"}]))
+    if role == "server":
+        # S10 a protocol-control handler publishes through the sink and waits for the acknowledgement before it
+        #     answers, a second control request is parked behind it: when the connection goes down the send fails,
+        #     the handler ends, the parked request is flushed and the connection task completes
+        s.append(({"gate_proto": 1}, [{"c": "in", "p": {"t": "subscribe", "id": 1}}, {"c": "complete", "j": 0, "o": "send"},
+                                     {"c": "in", "p": {"t": "pingreq"}}]))
     return s
 
 
@@ -1212,6 +1227,8 @@ def c07_decode_for(role, ver):
             return None, None
         if s in (2, 9) and i >= 1 and any(x.get("c") == "in" for x in causes[c - 1]):
             return None, None      # a packet written inside a half-received payload is payload
+        if s == 10 and any(x.get("c") == "in" for x in causes[c - 1]):
+            return None, None      # (the control pipeline is held by the waiting handler: in-band causes stay unread)
         cfg = dict(role=role, ver=ver, gate_pub=1, gate_proto=0, max_qos=2, max_receive=16)
         cfg.update({k: v for k, v in extra.items() if not k.startswith("_")})
         ck = {"rm": extra["_rm"]} if "_rm" in extra and ver == 5 else None
@@ -1262,8 +1279,24 @@ def c07_configs(tier):
     return cs
 
 
+def c07_extra(tier, rnd):
+    """always replayed (the quick tier samples the product): the complete scenarios S8 - S10 with every cause"""
+    runs = []
+    for ver in (3, 5):
+        for role in ("server", "client"):
+            scen = c07_scenarios(role, ver)
+            dec = c07_decode_for(role, ver)
+            for s in range(8, len(scen) + 1):
+                for c in range(1, len(c07_causes(role, ver)) + 1):
+                    for variant in (None, "stalled"):
+                        cfg, cmds = dec((s, len(scen[s - 1][1]), c), variant)
+                        if cfg is not None:
+                            runs.append(dict(cfg=cfg, cmds=cmds, src=f"S{s}_complete"))
+    return runs
+
+
 reg(dict(
-    name="teardown", judge="ProtoJudge", configs=c07_configs, signature=inb_signature,
+    name="teardown", judge="ProtoJudge", configs=c07_configs, signature=inb_signature, extra_runs=c07_extra,
     level={"C07": "fault_enumeration"}, quota=400, quota_thorough=100000,
     rule="TLC enumerates every triple <scenario, step index, cause>: 7 base scenarios (gated publishes in flight, streamed "
          "payload half received with a waiting reader, sends awaiting acks, senders parked on the window, write "
